@@ -146,9 +146,40 @@ static bool pattern_text_is_pathological(std::string_view t) {
   }
   return repeated_groups >= 1 && unbounded >= 2;
 }
+static bool pattern_text_has_repeated_group(std::string_view t) {
+  bool in_name = false;
+  for (size_t i = 0; i < t.size(); i++) {
+    char c = t[i];
+    if (c == '\\') {
+      i++;
+      in_name = false;
+      continue;
+    }
+    if (c == ':') {
+      in_name = true;
+      continue;
+    }
+    if ((c == '*' || c == '+') && i > 0 && (t[i - 1] == ')' || t[i - 1] == '}' || in_name)) return true;
+    bool namech = (c >= 'a' && c <= 'z') || (c >= 'A' && c <= 'Z') || (c >= '0' && c <= '9') || c == '_';
+    if (!namech) in_name = false;
+  }
+  return false;
+}
 static bool pattern_op_is_pathological(const Op& op) {
-  for (size_t k = 0; k < 9 && k < op.args.size(); k++)
-    if (op.args[k] && pattern_text_is_pathological(*op.args[k])) return true;
+  // Under a literal non-special protocol the pathname is compiled with the default (delimiter-less) options: a repeated
+  // named group becomes "((?:.+?)(?:.+?)*)", which backtracks exponentially on any failing match (runs of 3-11 s were
+  // measured for ':n+' / ':n*' next to the protocol 'foo').
+  bool non_special_literal_protocol = false;
+  const int ptype = (op.sub >> 1) & 1;
+  if (!op.args.empty() && op.args[0]) {
+    const std::string& a0 = *op.args[0];
+    non_special_literal_protocol = ptype == 1 ? a0 == "foo" : a0.rfind("foo", 0) == 0;
+  }
+  for (size_t k = 0; k < 9 && k < op.args.size(); k++) {
+    if (!op.args[k]) continue;
+    if (pattern_text_is_pathological(*op.args[k])) return true;
+    if (non_special_literal_protocol && pattern_text_has_repeated_group(*op.args[k])) return true;
+  }
   return false;
 }
 static Op gen_pattern_op_unfiltered(Rng& r, bool with_input);
